@@ -173,7 +173,13 @@ class Runtime:
                 kw["input_types"] = eval(m["it"], ns)  # noqa: S307 - type expressions harvested from the repo's own tests
             if m.get("ot"):
                 kw["output_types"] = eval(m["ot"], ns)  # noqa: S307
-            return ns[m["fn"]].to_model_proto(**kw)
+            mp = ns[m["fn"]].to_model_proto(**kw)
+            if m.get("force_opset"):
+                # what the repository's own fusion tests do: declare a newer default-domain opset on a model built with an older one
+                for oi in mp.opset_import:
+                    if oi.domain == "":
+                        oi.version = int(m["force_opset"])
+            return mp
         if m["pool"] == "compose":
             # several small models side by side in one graph (values prefixed per part): several independent matches of the
             # same rule, different rules in one traversal, several outputs, duplicated initializers
@@ -558,6 +564,17 @@ class Runtime:
             if rules is None:
                 raise ValueError(f"no rule set in {name}")
             rs = rules
+        elif name.startswith("fusionall:"):
+            import importlib
+
+            rules = []
+            for mn in name.split(":", 1)[1].split(","):
+                mod = importlib.import_module("onnxscript.rewriter.rules.fusion." + mn)
+                for attr in sorted(dir(mod)):
+                    v = getattr(mod, attr)
+                    if isinstance(v, pattern.RewriteRuleSet):
+                        rules.extend(r for r in v.rules if r not in rules)
+            rs = pattern.RewriteRuleSet(rules)
         elif name.startswith("ortall:"):
             import importlib
 
@@ -614,6 +631,17 @@ class Runtime:
             else:
                 m2, counts = _core.optimize_for_ort(m, **({"config_name": which.split("=", 1)[1]} if "=" in which else {}))
             return {"model": self._serialize(m2), "counts": json.dumps(counts, sort_keys=True)}
+        if rules == "onnxfuse":
+            # onnxscript.rewriter.onnx_fusions.fuse: the fusions targeting standard ONNX operators (opset 23)
+            from onnxscript.rewriter import onnx_fusions
+
+            m = self._as_ir(mp)
+            if op.get("pre_optimize"):
+                import onnxscript.optimizer as opt
+
+                opt.optimize(m)
+            counts = onnx_fusions.fuse(m)
+            return {"model": self._serialize(m), "counts": json.dumps(counts, sort_keys=True)}
         if rules.startswith("ortfn:"):
             # the per-module fuse_* entry points (what users call), in name order
             import importlib
@@ -839,6 +867,7 @@ def main() -> int:
     import onnxscript.rewriter.ort_fusions.rms_normalization  # noqa: F401
     import onnxscript.rewriter.ort_fusions.softmax  # noqa: F401
     import onnxscript.rewriter.ort_fusions._core  # noqa: F401
+    import onnxscript.rewriter.onnx_fusions  # noqa: F401
     from onnxscript._framework_apis import torch_2_5, torch_2_6, torch_2_8, torch_2_9  # noqa: F401
     try:  # the rule tests' model-building modules import these; import once so forked children do not
         import parameterized  # noqa: F401
